@@ -1,12 +1,1016 @@
-//! C13 — (stub: no ops yet)
+//! C13 — `fdr::picked_peptide`, `fdr::picked_protein`, `fdr::picked_precursor`
+//!
+//! DB    := gd(0/1) tag(hex) npep { decoy(0/1) seq(hex) nmod { pos f32 } nterm(opt f32) cterm(opt f32) nprot { name(hex) } }
+//! FEATS := nfeat { peptide_idx score(f32) }
+//!
+//!   pickpep  DB FEATS  ->  passing nfeat { q(f32) }  ntab { score(f32) pep(f32) }  nord { psm-index }      | panic
+//!   pickprot DB FEATS  ->  (same)
+//!       `ntab…` = the implementation's PEP (Estimator::posterior_error as f32) for every row score: the fitted
+//!       estimator is a float pipeline and crosses to the model as data.
+//!       `nord…` = iteration order of the competition hash map (one representative PSM index per key); informational
+//!       since /repo 1f05eb8 (the sort key is total, the driver no longer uses it).
+//!   pickprec n { kind(0 combined/1 charged) peptide_idx charge decoy(0/1) score(f64) }
+//!                      ->  passing n { q(f32) }  nord { entry-index }
+//!   permpep / permprot DB FEATS nperm { index }   -> passingA n { qA } passingB n { qB }   (B = permuted supply order,
+//!                                                     reported back in the original PSM order)
+//!   permprec n {…} nperm { index }                -> passingA n { qA } passingB n { qB }
 use super::Info;
-use crate::proto::{Case, Rng, Tier, Toks};
+use crate::proto::{Case, Out, Rng, Tier, Toks};
+use fnv::FnvHashMap;
+use sage_core::database::{Builder, EnzymeBuilder, IndexedDatabase, PeptideIx};
+use sage_core::enzyme::Position;
+use sage_core::fasta::Fasta;
+use sage_core::fdr::{picked_peptide, picked_precursor, picked_protein, Competition};
+use sage_core::lfq::{Peak, PrecursorId};
+use sage_core::peptide::Peptide;
+use sage_core::scoring::Feature;
+use std::sync::Arc;
 
-pub const OPS: &[&str] = &[];
-pub const INFO: Info = Info { rule: "", serial: false };
+pub const OPS: &[&str] = &["pickpep", "pickprot", "pickprec", "permpep", "permprot", "permprec"];
+pub const INFO: Info = Info {
+    rule: "databases: (a) built by Parameters::build from random tiny FASTAs (2-6 proteins assembled from a pool of \
+           tryptic peptides so that peptides are shared between proteins; internal decoys, or FASTA-supplied rev_ \
+           entries with generate_decoys=false; optional variable M-oxidation, static C / N-terminal mods), then \
+           written into the request and rebuilt with Parameters::build_from_peptides; (b) synthetic peptide tables \
+           (modified forms, terminal mods, shared protein groups, up to 420 targets). PSM lists: 0-80 PSMs (big: up \
+           to ~1600), peptides hit many times, target and decoy of a pair both hit, score modes distinct / small grid \
+           (ties) / all equal / single class / well separated (passing count > 0). Directed: exactly 99/100/101/150/200 \
+           confident targets (q lands on / next to 0.01), a decoy among 250/400 confident targets (decoy row with \
+           q <= 0.01), target and its decoy hit with the same score, extreme scores (f32::MIN, +-inf, subnormal), \
+           non-canonical tables (duplicate peptide string: the index lookup panics on both sides). Precursor level: \
+           0-80 peaks (big: up to 800), Combined/Charged ids, f64 scores that collapse to f32 ties, directed \
+           (d+1)/t = 0.05 with t in 19..61. Directed tie blocks at all three levels (several targets and decoys of different keys at one score). \
+           Every pick* case, ties included, is followed by perm* cases (reversed and random supply order, \
+           implementation against itself). non-trivial = at least 2 \
+           entities with at least one target and one decoy; distinct by request",
+    serial: false,
+};
 
-pub fn gen(_rng: &mut Rng, _tier: Tier, _emit: &mut dyn FnMut(Case)) {}
+// ------------------------------------------------------------------------------------------ data
 
-pub fn exec(_op: &str, _t: &mut Toks) -> Option<String> {
-    None
+#[derive(Clone, Debug)]
+struct PepSpec {
+    decoy: bool,
+    seq: Vec<u8>,
+    mods: Vec<(usize, f32)>,
+    nterm: Option<f32>,
+    cterm: Option<f32>,
+    prots: Vec<String>,
+}
+
+#[derive(Clone, Debug)]
+struct DbSpec {
+    gd: bool,
+    tag: String,
+    peps: Vec<PepSpec>,
+}
+
+fn put_db(o: &mut Out, db: &DbSpec) {
+    o.b(db.gd).s(&db.tag).n(db.peps.len());
+    for p in &db.peps {
+        o.b(p.decoy).bytes(&p.seq).n(p.mods.len());
+        for &(i, m) in &p.mods {
+            o.n(i).f32(m);
+        }
+        for t in [p.nterm, p.cterm] {
+            match t {
+                None => {
+                    o.n(0);
+                }
+                Some(x) => {
+                    o.n(1).f32(x);
+                }
+            }
+        }
+        o.n(p.prots.len());
+        for s in &p.prots {
+            o.s(s);
+        }
+    }
+}
+
+fn get_db(t: &mut Toks) -> Option<DbSpec> {
+    let gd = t.bool()?;
+    let tag = t.string()?;
+    let peps = t.list(|t| {
+        let decoy = t.bool()?;
+        let seq = t.bytes()?;
+        let mods = t.list(|t| Some((t.usize()?, t.f32()?)))?;
+        let nterm = t.opt(|t| t.f32())?;
+        let cterm = t.opt(|t| t.f32())?;
+        let prots = t.list(|t| t.string())?;
+        if mods.iter().any(|&(i, _)| i >= seq.len()) {
+            return None;
+        }
+        Some(PepSpec { decoy, seq, mods, nterm, cterm, prots })
+    })?;
+    Some(DbSpec { gd, tag, peps })
+}
+
+fn put_feats(o: &mut Out, feats: &[(usize, f32)]) {
+    o.n(feats.len());
+    for &(i, s) in feats {
+        o.n(i).f32(s);
+    }
+}
+
+fn get_feats(t: &mut Toks, npep: usize) -> Option<Vec<(usize, f32)>> {
+    let v = t.list(|t| Some((t.usize()?, t.f32()?)))?;
+    if v.iter().any(|&(i, _)| i >= npep) {
+        return None;
+    }
+    Some(v)
+}
+
+/// the database goes through the public constructor `Parameters::build_from_peptides`
+fn build_db(spec: &DbSpec) -> IndexedDatabase {
+    let peptides: Vec<Peptide> = spec
+        .peps
+        .iter()
+        .map(|p| {
+            let mut modifications = vec![0.0f32; p.seq.len()];
+            for &(i, m) in &p.mods {
+                modifications[i] = m;
+            }
+            Peptide {
+                decoy: p.decoy,
+                sequence: Arc::from(p.seq.clone().into_boxed_slice()),
+                modifications,
+                nterm: p.nterm,
+                cterm: p.cterm,
+                monoisotopic: 0.0,
+                missed_cleavages: 0,
+                semi_enzymatic: false,
+                position: Position::Internal,
+                proteins: p.prots.iter().map(|s| Arc::from(s.as_str())).collect(),
+            }
+        })
+        .collect();
+    let params = Builder {
+        fasta: Some(String::new()),
+        generate_decoys: Some(spec.gd),
+        decoy_tag: Some(spec.tag.clone()),
+        bucket_size: Some(8),
+        ..Default::default()
+    }
+    .make_parameters();
+    params.build_from_peptides(peptides)
+}
+
+fn spec_of_db(db: &IndexedDatabase) -> DbSpec {
+    DbSpec {
+        gd: db.generate_decoys,
+        tag: db.decoy_tag.clone(),
+        peps: db
+            .peptides
+            .iter()
+            .map(|p| PepSpec {
+                decoy: p.decoy,
+                seq: p.sequence.to_vec(),
+                mods: p
+                    .modifications
+                    .iter()
+                    .enumerate()
+                    .filter(|(_, m)| m.to_bits() != 0)
+                    .map(|(i, m)| (i, *m))
+                    .collect(),
+                nterm: p.nterm,
+                cterm: p.cterm,
+                prots: p.proteins.iter().map(|s| s.to_string()).collect(),
+            })
+            .collect(),
+    }
+}
+
+fn features(feats: &[(usize, f32)]) -> Vec<Feature> {
+    feats
+        .iter()
+        .enumerate()
+        .map(|(n, &(i, s))| {
+            let mut f = super::util::blank_feature();
+            f.peptide_idx = PeptideIx(i as u32);
+            f.discriminant_score = s;
+            f.psm_id = n;
+            // fields the functions must not read
+            f.hyperscore = -(n as f64);
+            f.spectrum_q = 0.5;
+            f
+        })
+        .collect()
+}
+
+// ------------------------------------------------------------------------------------------ exec
+
+#[derive(Copy, Clone, PartialEq)]
+enum Level {
+    Peptide,
+    Protein,
+}
+
+/// Data the model cannot compute: the PEP of every row score (float pipeline: `Builder::build` is public,
+/// `Competition::fit_kde` is not, so the few lines that feed it are repeated here; the model recomputes the
+/// competition itself and rejects a table that lacks one of its row scores) and the iteration order of the
+/// competition map (same key type, same hasher, same insertion sequence as the function under test).
+fn aux(level: Level, db: &IndexedDatabase, feats: &[Feature], o: &mut Out) {
+    fn finish<K: Eq + std::hash::Hash, Ix: Default + Send>(
+        map: &FnvHashMap<K, Competition<Ix>>,
+        first: &FnvHashMap<K, usize>,
+        o: &mut Out,
+    ) {
+        let (scores, decoys): (Vec<f64>, Vec<bool>) = map
+            .values()
+            .map(|c| (c.forward.max(c.reverse) as f64, c.reverse >= c.forward))
+            .unzip();
+        let est = sage_core::ml::kde::Builder::default().build(&scores, &decoys);
+        let mut tab: Vec<(u32, u32)> = Vec::new();
+        for c in map.values() {
+            for (ix, s) in [(&c.foward_ix, c.forward), (&c.reverse_ix, c.reverse)] {
+                if ix.is_some() && !tab.iter().any(|&(b, _)| b == s.to_bits()) {
+                    tab.push((s.to_bits(), (est.posterior_error(s as f64) as f32).to_bits()));
+                }
+            }
+        }
+        o.n(tab.len());
+        for (s, p) in tab {
+            o.n(s).n(p);
+        }
+        o.n(map.len());
+        for k in map.keys() {
+            o.n(first[k]);
+        }
+    }
+    match level {
+        Level::Peptide => {
+            let mut map: FnvHashMap<String, Competition<PeptideIx>> = FnvHashMap::default();
+            let mut first: FnvHashMap<String, usize> = FnvHashMap::default();
+            for (n, feat) in feats.iter().enumerate() {
+                let peptide = &db[feat.peptide_idx];
+                let key = match db.generate_decoys && peptide.decoy {
+                    true => peptide.reverse().to_string(),
+                    false => peptide.to_string(),
+                };
+                first.entry(key.clone()).or_insert(n);
+                let entry = map.entry(key).or_default();
+                match peptide.decoy {
+                    true => {
+                        entry.reverse = entry.reverse.max(feat.discriminant_score);
+                        entry.reverse_ix = Some(feat.peptide_idx);
+                    }
+                    false => {
+                        entry.forward = entry.forward.max(feat.discriminant_score);
+                        entry.foward_ix = Some(feat.peptide_idx);
+                    }
+                }
+            }
+            finish(&map, &first, o);
+        }
+        Level::Protein => {
+            let mut map: FnvHashMap<_, Competition<String>> = FnvHashMap::default();
+            let mut first: FnvHashMap<_, usize> = FnvHashMap::default();
+            for (n, feat) in feats.iter().enumerate() {
+                let decoy = db[feat.peptide_idx].decoy;
+                first.entry(&db[feat.peptide_idx].proteins).or_insert(n);
+                let entry = map.entry(&db[feat.peptide_idx].proteins).or_default();
+                let proteins = db[feat.peptide_idx].proteins(&db.decoy_tag, db.generate_decoys);
+                match decoy {
+                    true => {
+                        entry.reverse = entry.reverse.max(feat.discriminant_score);
+                        entry.reverse_ix = Some(proteins);
+                    }
+                    false => {
+                        entry.forward = entry.forward.max(feat.discriminant_score);
+                        entry.foward_ix = Some(proteins);
+                    }
+                }
+            }
+            finish(&map, &first, o);
+        }
+    }
+}
+
+fn run_level(level: Level, db: &IndexedDatabase, feats: &mut [Feature]) -> (usize, Vec<f32>) {
+    match level {
+        Level::Peptide => {
+            let p = picked_peptide(db, feats);
+            (p, feats.iter().map(|f| f.peptide_q).collect())
+        }
+        Level::Protein => {
+            let p = picked_protein(db, feats);
+            (p, feats.iter().map(|f| f.protein_q).collect())
+        }
+    }
+}
+
+fn put_result(o: &mut Out, passing: usize, qs: &[f32]) {
+    o.n(passing).n(qs.len());
+    for &q in qs {
+        o.f32(q);
+    }
+}
+
+fn get_perm(t: &mut Toks, n: usize) -> Option<Vec<usize>> {
+    let perm = t.list(|t| t.usize())?;
+    let mut seen = vec![false; n];
+    if perm.len() != n {
+        return None;
+    }
+    for &i in &perm {
+        if i >= n || seen[i] {
+            return None;
+        }
+        seen[i] = true;
+    }
+    Some(perm)
+}
+
+#[derive(Clone, Copy)]
+struct PeakSpec {
+    charged: bool,
+    ix: u32,
+    charge: u8,
+    decoy: bool,
+    score: f64,
+}
+
+impl PeakSpec {
+    fn key(&self) -> (PrecursorId, bool) {
+        let id = if self.charged {
+            PrecursorId::Charged((PeptideIx(self.ix), self.charge))
+        } else {
+            PrecursorId::Combined(PeptideIx(self.ix))
+        };
+        (id, self.decoy)
+    }
+}
+
+fn get_peaks(t: &mut Toks) -> Option<Vec<PeakSpec>> {
+    let v = t.list(|t| {
+        Some(PeakSpec {
+            charged: t.bool()?,
+            ix: t.usize()? as u32,
+            charge: t.usize()? as u8,
+            decoy: t.bool()?,
+            score: t.f64()?,
+        })
+    })?;
+    // keys are map keys: a request with a repeated key is not a set of peaks
+    for i in 0..v.len() {
+        for j in 0..i {
+            if v[i].key() == v[j].key() {
+                return None;
+            }
+        }
+    }
+    Some(v)
+}
+
+fn put_peaks(o: &mut Out, v: &[PeakSpec]) {
+    o.n(v.len());
+    for p in v {
+        o.b(p.charged).n(p.ix).n(p.charge).b(p.decoy).f64(p.score);
+    }
+}
+
+/// returns passing, q per entry (request order), hash iteration order (entry indices)
+fn run_prec(v: &[PeakSpec], order: &[usize]) -> (usize, Vec<f32>, Vec<usize>) {
+    let mut peaks: FnvHashMap<(PrecursorId, bool), (Peak, Vec<f64>)> = FnvHashMap::default();
+    for &i in order {
+        let p = &v[i];
+        peaks.insert(
+            p.key(),
+            (Peak { rt: i, spectral_angle: 0.25, score: p.score, q_value: 0.5 }, vec![1.0, 2.0]),
+        );
+    }
+    let passing = picked_precursor(&mut peaks);
+    let qs = v.iter().map(|p| peaks[&p.key()].0.q_value).collect();
+    let ord = peaks.values().map(|(pk, _)| pk.rt).collect();
+    (passing, qs, ord)
+}
+
+thread_local! {
+    /// Small inputs run inside a one-thread rayon pool owned by the calling harness thread: the code under test
+    /// issues thousands of tiny parallel reductions per call (`Kde::pdf`), and injecting each of them into the
+    /// global pool from outside costs a futex round trip. Inputs with many rows use the global pool.
+    static SMALL_POOL: rayon::ThreadPool = rayon::ThreadPoolBuilder::new().num_threads(1).build().expect("pool");
+}
+
+pub fn exec(op: &str, t: &mut Toks) -> Option<String> {
+    let rest: Vec<&str> = std::iter::from_fn(|| t.tok()).collect();
+    let line = rest.join(" ");
+    if rest.len() < 6000 {
+        SMALL_POOL.with(|p| p.install(|| exec_inner(op, &mut Toks::new(&line))))
+    } else {
+        exec_inner(op, &mut Toks::new(&line))
+    }
+}
+
+fn exec_inner(op: &str, t: &mut Toks) -> Option<String> {
+    let mut o = Out::new();
+    match op {
+        "pickpep" | "pickprot" | "permpep" | "permprot" => {
+            let level = if op.ends_with("pep") { Level::Peptide } else { Level::Protein };
+            let spec = get_db(t)?;
+            let fs = get_feats(t, spec.peps.len())?;
+            let db = build_db(&spec);
+            let mut feats = features(&fs);
+            if op.starts_with("pick") {
+                if !t.done() {
+                    return None;
+                }
+                let (passing, qs) = run_level(level, &db, &mut feats);
+                put_result(&mut o, passing, &qs);
+                aux(level, &db, &feats, &mut o);
+            } else {
+                let perm = get_perm(t, fs.len())?;
+                if !t.done() {
+                    return None;
+                }
+                let (pa, qa) = run_level(level, &db, &mut feats);
+                let permuted: Vec<(usize, f32)> = perm.iter().map(|&i| fs[i]).collect();
+                let mut feats_b = features(&permuted);
+                let (pb, qb_perm) = run_level(level, &db, &mut feats_b);
+                let mut qb = vec![0.0f32; fs.len()];
+                for (k, &i) in perm.iter().enumerate() {
+                    qb[i] = qb_perm[k];
+                }
+                put_result(&mut o, pa, &qa);
+                put_result(&mut o, pb, &qb);
+            }
+        }
+        "pickprec" => {
+            let v = get_peaks(t)?;
+            if !t.done() {
+                return None;
+            }
+            let id: Vec<usize> = (0..v.len()).collect();
+            let (passing, qs, ord) = run_prec(&v, &id);
+            put_result(&mut o, passing, &qs);
+            o.n(ord.len());
+            for i in ord {
+                o.n(i);
+            }
+        }
+        "permprec" => {
+            let v = get_peaks(t)?;
+            let perm = get_perm(t, v.len())?;
+            if !t.done() {
+                return None;
+            }
+            let id: Vec<usize> = (0..v.len()).collect();
+            let (pa, qa, _) = run_prec(&v, &id);
+            let (pb, qb, _) = run_prec(&v, &perm);
+            put_result(&mut o, pa, &qa);
+            put_result(&mut o, pb, &qb);
+        }
+        _ => return None,
+    }
+    Some(o.finish())
+}
+
+// ------------------------------------------------------------------------------------------ generator
+
+const POOL: &[&str] = &[
+    "AAGLLK", "MSDEGR", "PEPTLDEK", "GGWYR", "LLMMNQK", "SAMPLER", "VVVIK", "TTESTK", "DLQNR", "FYWHK", "CCDEEFR",
+    "ANKLE", "QQGSSTK", "ILVMAR", "HHPPGK", "EDCBAK",
+];
+
+/// a database produced by the real builder from a tiny FASTA
+fn real_db(rng: &mut Rng) -> DbSpec {
+    let gd = rng.chance(2, 3);
+    let nprot = 2 + rng.below(5);
+    let mut fasta = String::new();
+    let mut rev = String::new();
+    for p in 0..nprot {
+        let npep = 1 + rng.below(5);
+        let mut seq = String::new();
+        for _ in 0..npep {
+            seq.push_str(*rng.pick(POOL));
+        }
+        // a tail that is not a full tryptic peptide of the pool
+        if rng.chance(1, 3) {
+            seq.push_str("GASPV");
+        }
+        fasta.push_str(&format!(">sp|P{p:03}|X some text\n{seq}\n"));
+        if !gd {
+            let r: String = seq.chars().rev().collect();
+            rev.push_str(&format!(">rev_sp|P{p:03}|X\n{r}\n"));
+        }
+    }
+    fasta.push_str(&rev);
+    let mut vm = std::collections::HashMap::new();
+    if rng.chance(1, 3) {
+        vm.insert("M".to_string(), vec![15.9949f32]);
+    }
+    let mut sm = std::collections::HashMap::new();
+    if rng.chance(1, 4) {
+        sm.insert("C".to_string(), 57.0215f32);
+    }
+    if rng.chance(1, 6) {
+        sm.insert("^".to_string(), 229.16f32);
+    }
+    let params = Builder {
+        fasta: Some(String::new()),
+        generate_decoys: Some(gd),
+        decoy_tag: Some("rev_".into()),
+        bucket_size: Some(8),
+        peptide_min_mass: Some(50.0),
+        enzyme: Some(EnzymeBuilder {
+            missed_cleavages: Some(rng.below(2) as u8),
+            min_len: Some(4),
+            ..Default::default()
+        }),
+        variable_mods: Some(vm),
+        static_mods: Some(sm),
+        ..Default::default()
+    }
+    .make_parameters();
+    let db = params.build(Fasta::parse(fasta, "rev_", gd));
+    spec_of_db(&db)
+}
+
+fn synth_seq(n: usize) -> Vec<u8> {
+    // distinct, non-palindromic sequences; reverse() keeps first and last residue
+    const AA: &[u8] = b"ACDEFGHILMNPQSTVWY";
+    let mut s = vec![b'A'];
+    let mut k = n;
+    for _ in 0..4 {
+        s.push(AA[k % AA.len()]);
+        k /= AA.len();
+    }
+    s.extend_from_slice(b"GLK");
+    s
+}
+
+/// a synthetic table: `nt` targets, each with an internal decoy (gd) or a FASTA-style decoy (!gd)
+fn synth_db(rng: &mut Rng, nt: usize, groups: usize, with_mods: bool) -> DbSpec {
+    let gd = rng.chance(2, 3);
+    let mut peps = Vec::new();
+    for i in 0..nt {
+        let seq = synth_seq(i);
+        let np = 1 + if rng.chance(1, 4) { rng.below(2) } else { 0 };
+        let mut prots: Vec<String> = (0..np).map(|_| format!("P{}", rng.below(groups.max(1)))).collect();
+        prots.sort();
+        prots.dedup();
+        let mut mods = Vec::new();
+        let (mut nterm, mut cterm) = (None, None);
+        if with_mods {
+            if rng.chance(1, 3) {
+                mods.push((1 + rng.below(seq.len() - 2), *rng.pick(&[15.9949f32, 79.9663, -17.0265])));
+            }
+            if rng.chance(1, 5) {
+                nterm = Some(42.0106);
+            }
+            if rng.chance(1, 8) {
+                cterm = Some(-0.984);
+            }
+        }
+        let t = PepSpec { decoy: false, seq: seq.clone(), mods: mods.clone(), nterm, cterm, prots: prots.clone() };
+        // what Peptide::reverse does
+        let n = seq.len() - 1;
+        let mut rs = seq.clone();
+        rs[1..n].reverse();
+        let rmods = mods.iter().map(|&(i, m)| (if i >= 1 && i < n { n - i } else { i }, m)).collect();
+        let dprots = if gd { prots.clone() } else { prots.iter().map(|p| format!("rev_{p}")).collect() };
+        let d = PepSpec { decoy: true, seq: rs, mods: rmods, nterm, cterm, prots: dprots };
+        peps.push(t);
+        if !rng.chance(1, 10) {
+            peps.push(d);
+        }
+        // the same sequence in a second modification form (another peptide, another key, same proteins)
+        if with_mods && rng.chance(1, 6) {
+            peps.push(PepSpec { decoy: false, seq, mods: vec![(2, 0.984)], nterm: None, cterm: None, prots });
+        }
+    }
+    rng.shuffle(&mut peps);
+    DbSpec { gd, tag: "rev_".into(), peps }
+}
+
+fn f32_grid(rng: &mut Rng) -> f32 {
+    (rng.below(9) as f32) * 0.5 - 1.0
+}
+
+fn distinct_scores(rng: &mut Rng, n: usize, lo: f64, hi: f64) -> Vec<f32> {
+    let mut seen = std::collections::HashSet::new();
+    let mut v = Vec::with_capacity(n);
+    while v.len() < n {
+        let x = (lo + rng.unit() * (hi - lo)) as f32;
+        if x != 0.0 && seen.insert(x.to_bits()) {
+            v.push(x);
+        }
+    }
+    v
+}
+
+#[derive(Copy, Clone, PartialEq, Debug)]
+enum Mode {
+    Distinct,
+    Grid,
+    AllEqual,
+    Separated,
+    OnlyTargets,
+    OnlyDecoys,
+}
+
+fn gen_feats(rng: &mut Rng, db: &DbSpec, n: usize, mode: Mode) -> Vec<(usize, f32)> {
+    let np = db.peps.len();
+    if np == 0 {
+        return vec![];
+    }
+    let allowed: Vec<usize> = (0..np)
+        .filter(|&i| match mode {
+            Mode::OnlyTargets => !db.peps[i].decoy,
+            Mode::OnlyDecoys => db.peps[i].decoy,
+            _ => true,
+        })
+        .collect();
+    if allowed.is_empty() {
+        return vec![];
+    }
+    // a few favourite peptides are hit many times
+    let hot: Vec<usize> = (0..3).map(|_| *rng.pick(&allowed)).collect();
+    let ds = distinct_scores(rng, n, -4.0, 9.0);
+    (0..n)
+        .map(|k| {
+            let i = if rng.chance(1, 3) { *rng.pick(&hot) } else { *rng.pick(&allowed) };
+            let s = match mode {
+                Mode::Distinct | Mode::OnlyTargets | Mode::OnlyDecoys => ds[k],
+                Mode::Grid => f32_grid(rng),
+                Mode::AllEqual => 1.25,
+                Mode::Separated => {
+                    if db.peps[i].decoy {
+                        (ds[k] - 9.0) * 0.1
+                    } else {
+                        12.0 + ds[k] * 0.1
+                    }
+                }
+            };
+            (i, s)
+        })
+        .collect()
+}
+
+fn rows_stat(db: &DbSpec, feats: &[(usize, f32)]) -> (usize, bool, bool) {
+    let mut ents: Vec<usize> = feats.iter().map(|f| f.0).collect();
+    ents.sort();
+    ents.dedup();
+    let t = ents.iter().any(|&i| !db.peps[i].decoy);
+    let d = ents.iter().any(|&i| db.peps[i].decoy);
+    (ents.len(), t, d)
+}
+
+fn has_ties(feats: &[(usize, f32)]) -> bool {
+    let mut s: Vec<u32> = feats.iter().map(|f| f.1.to_bits()).collect();
+    s.sort();
+    s.windows(2).any(|w| w[0] == w[1])
+}
+
+fn emit_pick(
+    rng: &mut Rng,
+    emit: &mut dyn FnMut(Case),
+    db: &DbSpec,
+    feats: &[(usize, f32)],
+    tags: &[&'static str],
+    nperm: usize,
+) {
+    let (ne, t, d) = rows_stat(db, feats);
+    let nt = ne >= 2 && t && d;
+    let ties = has_ties(feats);
+    for (op, pop) in [("pickpep", "permpep"), ("pickprot", "permprot")] {
+        let mut o = Out::new();
+        o.raw(op);
+        put_db(&mut o, db);
+        put_feats(&mut o, feats);
+        let mut c = Case::new(o.finish())
+            .nontrivial(nt)
+            .tag_if(feats.is_empty(), "no-psms")
+            .tag_if(ties, "score-ties")
+            .tag_if(t && !d, "targets-only")
+            .tag_if(d && !t, "decoys-only")
+            .tag_if(db.gd, "internal-decoys")
+            .tag_if(!db.gd, "fasta-decoys");
+        for tg in tags {
+            c = c.tag(tg);
+        }
+        emit(c);
+        // metamorphic stream, ties included (since /repo 1f05eb8 equal scores are ordered by a total key)
+        if feats.len() >= 2 {
+            for k in 0..nperm {
+                let mut perm: Vec<usize> = (0..feats.len()).collect();
+                if k == 0 {
+                    perm.reverse();
+                } else {
+                    rng.shuffle(&mut perm);
+                }
+                let mut o = Out::new();
+                o.raw(pop);
+                put_db(&mut o, db);
+                put_feats(&mut o, feats);
+                o.n(perm.len());
+                for i in perm {
+                    o.n(i);
+                }
+                emit(Case::new(o.finish()).nontrivial(nt).tag("permutation").tag_if(k == 0, "reversed").tag_if(ties, "permutation-with-ties"));
+            }
+        }
+    }
+}
+
+fn emit_prec(rng: &mut Rng, emit: &mut dyn FnMut(Case), v: &[PeakSpec], tags: &[&'static str], nperm: usize) {
+    let t = v.iter().any(|p| !p.decoy);
+    let d = v.iter().any(|p| p.decoy);
+    let mut s: Vec<u32> = v.iter().map(|p| (p.score as f32).to_bits()).collect();
+    s.sort();
+    let ties = s.windows(2).any(|w| w[0] == w[1]);
+    let mut o = Out::new();
+    o.raw("pickprec");
+    put_peaks(&mut o, v);
+    let mut c = Case::new(o.finish())
+        .nontrivial(v.len() >= 2 && t && d)
+        .tag_if(v.is_empty(), "no-peaks")
+        .tag_if(ties, "score-ties")
+        .tag_if(t && !d, "targets-only")
+        .tag_if(d && !t, "decoys-only");
+    for tg in tags {
+        c = c.tag(tg);
+    }
+    emit(c);
+    if v.len() >= 2 {
+        for k in 0..nperm {
+            let mut perm: Vec<usize> = (0..v.len()).collect();
+            if k == 0 {
+                perm.reverse();
+            } else {
+                rng.shuffle(&mut perm);
+            }
+            let mut o = Out::new();
+            o.raw("permprec");
+            put_peaks(&mut o, v);
+            o.n(perm.len());
+            for i in perm {
+                o.n(i);
+            }
+            emit(Case::new(o.finish()).nontrivial(t && d).tag("permutation").tag_if(k == 0, "reversed").tag_if(ties, "permutation-with-ties"));
+        }
+    }
+}
+
+fn gen_peaks(rng: &mut Rng, n: usize, mode: Mode) -> Vec<PeakSpec> {
+    let mut v: Vec<PeakSpec> = Vec::new();
+    let mut seen = std::collections::HashSet::new();
+    let ds = distinct_scores(rng, n, 0.0, 1.0);
+    let mut k = 0;
+    while v.len() < n {
+        let charged = rng.chance(1, 2);
+        let ix = rng.below(n.max(2)) as u32;
+        let charge = if charged { 1 + rng.below(4) as u8 } else { 0 };
+        let decoy = match mode {
+            Mode::OnlyTargets => false,
+            Mode::OnlyDecoys => true,
+            Mode::Separated => rng.chance(1, 8),
+            _ => rng.chance(1, 3),
+        };
+        if !seen.insert((charged, ix, charge, decoy)) {
+            continue;
+        }
+        let score = match mode {
+            Mode::Grid => rng.below(6) as f64 * 0.125,
+            Mode::AllEqual => 0.5,
+            Mode::Separated => {
+                if decoy {
+                    ds[k] as f64 * 0.3
+                } else {
+                    0.5 + ds[k] as f64 * 0.5
+                }
+            }
+            // f64 scores that differ only below f32 precision collapse to ties after `as f32`
+            _ => {
+                if rng.chance(1, 10) {
+                    0.75 + rng.unit() * 1e-12
+                } else {
+                    ds[k] as f64 + rng.unit() * 1e-9
+                }
+            }
+        };
+        k += 1;
+        v.push(PeakSpec { charged, ix, charge, decoy, score });
+    }
+    v
+}
+
+pub fn gen(rng: &mut Rng, tier: Tier, emit: &mut dyn FnMut(Case)) {
+    let quick = tier == Tier::Quick;
+    let modes = [Mode::Distinct, Mode::Grid, Mode::AllEqual, Mode::Separated, Mode::OnlyTargets, Mode::OnlyDecoys];
+
+    // edge cases: empty database rows are impossible (a PSM needs a peptide); no PSMs, one PSM, one pair
+    {
+        let db = synth_db(rng, 2, 2, false);
+        emit_pick(rng, emit, &db, &[], &["edge"], 0);
+        emit_pick(rng, emit, &db, &[(0, 1.0)], &["edge"], 0);
+        let pair: Vec<usize> = (0..db.peps.len()).filter(|&i| db.peps[i].seq[1..] == db.peps[0].seq[1..] || true).take(2).collect();
+        let f: Vec<(usize, f32)> = pair.iter().enumerate().map(|(k, &i)| (i, 1.0 + k as f32)).collect();
+        emit_pick(rng, emit, &db, &f, &["edge"], 1);
+        emit_prec(rng, emit, &[], &["edge"], 0);
+    }
+
+    // (a) real databases
+    let n_real = if quick { 60 } else { 1500 };
+    for _ in 0..n_real {
+        let db = real_db(rng);
+        for _ in 0..2 {
+            let n = rng.below(if quick { 60 } else { 120 });
+            let mode = *rng.pick(&modes);
+            let feats = gen_feats(rng, &db, n, mode);
+            emit_pick(rng, emit, &db, &feats, &["real-db"], if quick { 2 } else { 3 });
+        }
+    }
+    // (b) synthetic tables
+    let n_syn = if quick { 80 } else { 2500 };
+    for _ in 0..n_syn {
+        let nt = 1 + rng.below(12);
+        let groups = 1 + rng.below(5);
+        let with_mods = rng.chance(1, 2);
+        let db = synth_db(rng, nt, groups, with_mods);
+        let n = rng.below(if quick { 80 } else { 160 });
+        let mode = *rng.pick(&modes);
+        let feats = gen_feats(rng, &db, n, mode);
+        emit_pick(rng, emit, &db, &feats, &["synthetic-db"], if quick { 2 } else { 3 });
+    }
+    // (c) big well-separated inputs: passing counts > 0, threshold crossings
+    let n_big = if quick { 6 } else { 60 };
+    for _ in 0..n_big {
+        let nt = 120 + rng.below(if quick { 200 } else { 300 });
+        let db = synth_db(rng, nt, nt, false);
+        let n = nt * 2 + rng.below(nt * 2);
+        let mode = if rng.chance(3, 4) { Mode::Separated } else { Mode::Distinct };
+        let feats = gen_feats(rng, &db, n, mode);
+        emit_pick(rng, emit, &db, &feats, &["big"], 1);
+    }
+    // (d) directed: exactly T confident targets far above D weak decoys: q = (1 + sum pep)/T lands on / next to 0.01
+    for &t in &[99usize, 100, 101, 150, 200] {
+        for &d in &[2usize, 5] {
+            let mut peps = Vec::new();
+            for i in 0..t + d {
+                let seq = synth_seq(i);
+                peps.push(PepSpec {
+                    decoy: i >= t,
+                    seq,
+                    mods: vec![],
+                    nterm: None,
+                    cterm: None,
+                    prots: vec![format!("{}Q{}", if i >= t { "rev_" } else { "" }, i)],
+                });
+            }
+            let db = DbSpec { gd: false, tag: "rev_".into(), peps };
+            let hi = distinct_scores(rng, t, 20.0, 30.0);
+            let lo = distinct_scores(rng, d, -30.0, -20.0);
+            let mut feats: Vec<(usize, f32)> = (0..t).map(|i| (i, hi[i])).collect();
+            feats.extend((0..d).map(|i| (t + i, lo[i])));
+            rng.shuffle(&mut feats);
+            emit_pick(rng, emit, &db, &feats, &["threshold-boundary"], 1);
+        }
+    }
+
+    // (e) a decoy scoring in the middle of many confident targets: a decoy row with q <= 0.01 (must not be counted)
+    for &t in &[250usize, 400] {
+        let mut peps = Vec::new();
+        for i in 0..t + 4 {
+            peps.push(PepSpec {
+                decoy: i >= t,
+                seq: synth_seq(i),
+                mods: vec![],
+                nterm: None,
+                cterm: None,
+                prots: vec![format!("{}Q{}", if i >= t { "rev_" } else { "" }, i)],
+            });
+        }
+        let db = DbSpec { gd: false, tag: "rev_".into(), peps };
+        let hi = distinct_scores(rng, t + 1, 20.0, 30.0);
+        let lo = distinct_scores(rng, 3, -30.0, -20.0);
+        let mut feats: Vec<(usize, f32)> = (0..t + 1).map(|i| (i, hi[i])).collect();
+        feats.extend((0..3).map(|i| (t + 1 + i, lo[i])));
+        rng.shuffle(&mut feats);
+        emit_pick(rng, emit, &db, &feats, &["confident-decoy"], 1);
+    }
+    // (f) target and decoy of one key hit with the SAME score (forward == reverse inside one entry), other keys distinct
+    for _ in 0..(if quick { 10 } else { 200 }) {
+        let nt = 3 + rng.below(6);
+        let mut db = synth_db(rng, nt, 3, false);
+        db.gd = true;
+        for p in db.peps.iter_mut() {
+            if p.decoy {
+                p.prots = p.prots.iter().map(|s| s.trim_start_matches("rev_").to_string()).collect();
+            }
+        }
+        let ds = distinct_scores(rng, db.peps.len(), -3.0, 8.0);
+        // score by sequence content so that a target and its reversed decoy get the same score
+        let mut feats: Vec<(usize, f32)> = Vec::new();
+        for (i, p) in db.peps.iter().enumerate() {
+            let mut sorted = p.seq.clone();
+            sorted.sort();
+            let k = db.peps.iter().position(|q| { let mut s2 = q.seq.clone(); s2.sort(); s2 == sorted }).unwrap();
+            feats.push((i, ds[k]));
+        }
+        rng.shuffle(&mut feats);
+        emit_pick(rng, emit, &db, &feats, &["pair-same-score"], 0);
+    }
+    // (g) extreme scores: f32::MIN (the competition's starting value), -inf, +inf, subnormal, -0.0 is avoided
+    for _ in 0..(if quick { 6 } else { 60 }) {
+        let db = synth_db(rng, 4, 2, false);
+        let ext = [f32::MIN, f32::NEG_INFINITY, f32::MAX, f32::INFINITY, 1e-45, -1e-45, 1.0, -1.0];
+        let n = 2 + rng.below(8);
+        let feats: Vec<(usize, f32)> = (0..n).map(|_| (rng.below(db.peps.len()), *rng.pick(&ext))).collect();
+        let mut o = Out::new();
+        o.raw(if rng.chance(1, 2) { "pickpep" } else { "pickprot" });
+        put_db(&mut o, &db);
+        put_feats(&mut o, &feats);
+        emit(Case::new(o.finish()).tag("extreme-scores").nontrivial(false));
+    }
+    // (h) non-canonical tables (outside the property's quantifier): the same peptide string twice as a target.
+    //     `scores[&ix]` then panics for the index that lost its row; the model reproduces that.
+    for _ in 0..(if quick { 6 } else { 40 }) {
+        let mut db = synth_db(rng, 3, 2, false);
+        let dup = db.peps.iter().find(|p| !p.decoy).unwrap().clone();
+        db.peps.push(dup);
+        let n = 2 + rng.below(10);
+        let mut feats = gen_feats(rng, &db, n, Mode::Distinct);
+        let first = db.peps.iter().position(|p| !p.decoy).unwrap();
+        feats.push((first, 2.5));
+        feats.push((db.peps.len() - 1, 3.5));
+        rng.shuffle(&mut feats);
+        let mut o = Out::new();
+        o.raw("pickpep");
+        put_db(&mut o, &db);
+        put_feats(&mut o, &feats);
+        emit(Case::new(o.finish()).tag("noncanonical-db").nontrivial(false));
+    }
+
+    // (i) directed tie blocks (the shape of the repaired order-dependence defect): several targets and decoys of
+    //     DIFFERENT keys at one score, embedded between distinct higher and lower scores; many supply orders
+    for _ in 0..(if quick { 40 } else { 1500 }) {
+        let nt = 4 + rng.below(8);
+        let groups = 1 + rng.below(4);
+        // internal decoys (target and decoy share a key) or FASTA-style decoys (every peptide its own key)
+        let db = synth_db(rng, nt, groups, false);
+        let np = db.peps.len();
+        let ds = distinct_scores(rng, np, -2.0, 6.0);
+        let tie_a = 1.0f32;
+        let tie_b = 2.5f32;
+        let feats: Vec<(usize, f32)> = (0..np)
+            .map(|i| {
+                let r = rng.below(10);
+                (i, if r < 5 { tie_a } else if r < 7 { tie_b } else { ds[i] })
+            })
+            .collect();
+        emit_pick(rng, emit, &db, &feats, &["tie-block"], if quick { 3 } else { 5 });
+    }
+    for _ in 0..(if quick { 60 } else { 3000 }) {
+        // precursor: 3-12 peaks, at most three distinct scores, both id kinds, same peptide index under both flags
+        let n = 3 + rng.below(10);
+        let mut v: Vec<PeakSpec> = Vec::new();
+        let mut seen = std::collections::HashSet::new();
+        while v.len() < n {
+            let charged = rng.chance(1, 2);
+            let ix = rng.below(6) as u32;
+            let charge = if charged { 1 + rng.below(3) as u8 } else { 0 };
+            let decoy = rng.chance(2, 5);
+            if !seen.insert((charged, ix, charge, decoy)) {
+                continue;
+            }
+            let score = *rng.pick(&[0.5f64, 0.5, 0.5, 0.25, 0.75]);
+            v.push(PeakSpec { charged, ix, charge, decoy, score });
+        }
+        emit_prec(rng, emit, &v, &["tie-block"], if quick { 3 } else { 5 });
+    }
+
+    // precursor level
+    let n_prec = if quick { 300 } else { 20000 };
+    for _ in 0..n_prec {
+        let n = rng.below(if quick { 40 } else { 80 });
+        let mode = *rng.pick(&modes);
+        let v = gen_peaks(rng, n, mode);
+        emit_prec(rng, emit, &v, &["random"], if quick { 2 } else { 3 });
+    }
+    for _ in 0..(if quick { 4 } else { 40 }) {
+        let n = 200 + rng.below(600);
+        let v = gen_peaks(rng, n, Mode::Separated);
+        emit_prec(rng, emit, &v, &["big"], 1);
+    }
+    // directed: (d+1)/t = 0.05 exactly and its neighbours
+    for &t in &[19usize, 20, 21, 39, 40, 41, 59, 60, 61] {
+        for d in 0..3usize {
+            let mut v = Vec::new();
+            let st = distinct_scores(rng, t, 0.6, 1.0);
+            let sd = distinct_scores(rng, d + 1, 0.0, 0.3);
+            for i in 0..t {
+                v.push(PeakSpec { charged: true, ix: i as u32, charge: 2, decoy: false, score: st[i] as f64 });
+            }
+            for i in 0..d {
+                // d decoys scoring above all targets, one trailing decoy below
+                v.push(PeakSpec { charged: true, ix: i as u32, charge: 2, decoy: true, score: 2.0 + sd[i] as f64 });
+            }
+            v.push(PeakSpec { charged: false, ix: 0, charge: 0, decoy: true, score: sd[d] as f64 });
+            rng.shuffle(&mut v);
+            emit_prec(rng, emit, &v, &["threshold-boundary"], 1);
+        }
+    }
 }
